@@ -87,6 +87,12 @@ class TraceProp(Prop):
             prog = ([['add', 'Category', [1], {'title': 1}], ['add', 'Article', [3], {'name': 1}],
                      ['setrel', 'Article', [3], 'category', 'Category', [1]], ['commit']] + prog[:pos] +
                     [['commit'], ['del', 'Category', [1]], ['commit']] + prog[pos:])
+        if spec.get('shape') == 'aliased' and rng.random() < 0.8:
+            # transactions that change ONLY the attribute whose name differs from its column name
+            pos = rng.randrange(0, len(prog) + 1)
+            prog = ([['add', 'Article', [3], {'name_': 1, 'content': 1}], ['commit']] + prog[:pos] +
+                    [['commit'], ['set', 'Article', [3], 'name_', 2], ['commit'], ['set', 'Article', [3], 'content', 2], ['flush'],
+                     ['set', 'Article', [3], 'name_', 3], ['commit']] + prog[pos:])
         case = {'spec': spec, 'autoflush': autoflush, 'program': prog}
         import os
         if rng.random() < float(os.environ.get('VERIF_JOIN_P', '0.1')):
@@ -489,6 +495,17 @@ class C11(TraceProp):
     def gen(self, rng, tier):
         for c in TraceProp.gen(self, rng, tier):
             yield c
+        # a key deleted in one transaction and re-used in a later one whose row is written by several flushes
+        from .. import envs as _envs
+        for _ in range(6 if tier == 'quick' else 100):
+            spec = _envs.shape_articles({'strategy': rng.choice(['validity', 'subquery'])}, plugins=['mod_tracker'])
+            spec['shape'] = 'articles'
+            prog = [['add', 'Article', [1], {'name': 1}], ['commit'], ['del', 'Article', [1]], ['commit'],
+                    ['add', 'Article', [1], {'name': rng.randrange(4)}], ['flush'], ['set', 'Article', [1], 'content', rng.randrange(4)]]
+            if rng.random() < 0.5:
+                prog += [['flush'], ['del', 'Article', [1]], ['flush'], ['add', 'Article', [1], {'content': 1}]]
+            prog += [['commit']]
+            yield {'spec': spec, 'autoflush': False, 'program': prog, 'family': 'reuse_after_committed_delete'}
         if tier == 'thorough':
             import itertools
             from .. import envs
@@ -614,7 +631,7 @@ class C10(TraceProp):
     seg_fields = ('C10',)
     shapes = ['m2m', 'm2m', 'm2m_self']
     weights = {'link': 16, 'unlink': 8, 'commit': 4, 'flush': 8, 'add': 7, 'del': 1, 'set': 1, 'rollback': 1, 'setrel': 0,
-               'set_same': 0, 'set_null': 0, 'query': 0}
+               'set_same': 0, 'set_null': 0, 'query': 0, 'core_link': 3, 'sp_begin': 2, 'sp_commit': 1, 'sp_rollback': 2}
     steps_quick = (15, 25, 40)
     rule = ('random histories of linking and unlinking on a many-to-many shape (single and several pairs per transaction, from '
             'either side through the backref, pairs removed and re-added in later transactions, parents or targets deleted, '
@@ -659,6 +676,8 @@ class C10(TraceProp):
                     prog.append(['flush'])
                 prog.append(['commit'])
             yield {'spec': spec, 'autoflush': False, 'program': prog, 'family': 'multi_pair_multi_flush'}
+        for _ in range(16 if tier == 'quick' else 400):
+            yield proggen.core_sp_case(rng)
 
     def case_tags(self, case, obs, out):
         TraceProp.case_tags(self, case, obs, out)
